@@ -899,3 +899,28 @@ Proof.
     intros Hin. apply Hr. apply in_map_iff in Hin. destruct Hin as (a & E & Ha). subst r. apply in_map.
     apply in_app_or in Ha. destruct Ha as [H|H]; [assumption|apply in_by_kind; assumption].
 Qed.
+
+(* ---------- the manager's file operations: last write wins, delete removes, nothing else moves ---------- *)
+
+Lemma wf_mrun ops : forall m, wf m -> wf (mrun ops m).
+Proof.
+  induction ops as [|o ops IH]; intros m H; cbn; [assumption|]. apply IH.
+  destruct o; cbn; [apply wf_insert|apply wf_remove]; assumption.
+Qed.
+
+Theorem manager_write_delete_exact ops o :
+  let m := mrun ops [] in
+  let m' := mstep o m in
+  match o with
+  | MWrite f n c => lookup (mpath f n) m' = Some c
+  | MDel f n => lookup (mpath f n) m' = None
+  end /\
+  forall p, p <> match o with MWrite f n _ => mpath f n | MDel f n => mpath f n end -> lookup p m' = lookup p m.
+Proof.
+  intros m m'. assert (W : wf m) by (apply wf_mrun; constructor). subst m'.
+  destruct o as [f n c|f n]; cbn [mstep]; split.
+  - apply lookup_insert_eq.
+  - intros p Hp. apply lookup_insert_neq. assumption.
+  - apply lookup_remove_eq. assumption.
+  - intros p Hp. apply lookup_remove_neq. assumption.
+Qed.
